@@ -234,7 +234,8 @@ def drive(tier):
 def run(tier):
     rep = Report("C18", tier)
     rep.add_mc("MC_P2P", vlib.run_mc("MC_P2P", cfg="MC_P2P" if tier == "quick" else "MC_P2P_thorough"))
-    recs = drive(tier)
+    recs, nsecond, ndiff = vlib.second_pass(drive, tier)
+    rep.cov["second_pass_calls"], rep.cov["second_pass_differing"] = nsecond, ndiff
     for x in recs:
         x["_cost"] = 400 + 8 * len(x["in"].get("bytes", [])) + (20 * len(json.dumps(x["in"].get("msg", ""))) if x["op"] == "p2p.frame" else 0)
     mm = vlib.validate("Trace_P2P", recs)
